@@ -39,6 +39,10 @@ pub struct PeerSpec {
     /// later call overwrites the earlier one)
     #[serde(default)]
     pub input_style: u8,
+    /// order of the builder's setter calls: 0 = window, delay, sparse, fps, timeouts, desync;
+    /// 1 = the reverse (sparse saving and delay are set before the window they interact with)
+    #[serde(default)]
+    pub builder_order: u8,
 }
 
 impl PeerSpec {
@@ -59,6 +63,7 @@ impl PeerSpec {
             poll_only: false,
             wait_timeout_ms: None,
             input_style: 0,
+            builder_order: 0,
         }
     }
 }
@@ -302,6 +307,7 @@ impl Scenario {
         f.push(format!("polls-between-ticks={}", self.extra_polls || self.script.iter().any(|i| i.action == Action::Poll)));
         f.push(format!("no-checksum-game={}", !self.no_checksum.is_empty()));
         f.push(format!("wide-input={}", self.wide));
+        f.push(format!("builder-setters-reversed={}", self.peers.iter().any(|p| p.builder_order != 0)));
         f.push(format!("input-style={}", self.peers.iter().map(|p| p.input_style).max().unwrap_or(0)));
         f.push(format!("diverging-game={}", self.diverge.is_some()));
         f.push(format!("handshake-phase={}", self.handshake_phase));
